@@ -149,4 +149,28 @@ theorem fromSQL_spec (ω : Oracle) (nilHandle : Bool) (query : Str) (queryErr : 
   · simp [Outcome.isOk]
 
 
+/-- under "skip_row" no imported column holds a nil: a NULL never survives as a missing cell -/
+theorem skip_row_no_nil (ω : Oracle) (rs : ResultSet)
+    (hnd : rs.names.Nodup) (hw : ∀ r ∈ rs.rows, r.length = rs.names.length) (hwt : rs.types.length = rs.names.length)
+    (herr : rs.errAt = none) (hnat : ∀ r ∈ rs.rows, scanRowOk (rs.types.map scanTyOf) r = true) :
+    ∃ f, fromRows ω rs { handler := .named sSkip, parseDates := [] } = .ok f ∧
+      ∀ (j : Nat) (name : Str) (col : Col), rs.names[j]? = some name → f.get? name = some col → ∀ c ∈ col.data, c ≠ .nil := by
+  obtain ⟨f, hf, hcols⟩ := skip_row_spec ω rs hnd hw hwt herr hnat
+  refine ⟨f, hf, ?_⟩
+  intro j name col hj hg c hc
+  have := hcols j name hj
+  rw [hg] at this
+  cases this
+  obtain ⟨r, hr, rfl⟩ := List.mem_map.mp hc
+  obtain ⟨hrin, hnn⟩ := List.mem_filter.mp hr
+  have hjlt : j < rs.names.length := (List.getElem?_eq_some_iff.mp hj).1
+  have hlen := hw r hrin
+  have hjr : j < r.length := by omega
+  have hmem : r.getD j .nil ∈ r := by
+    rw [List.getD_eq_getElem?_getD, List.getElem?_eq_getElem hjr]
+    exact List.getElem_mem hjr
+  intro hnil
+  have hany : r.any (fun c => c == .nil) = true := List.any_eq_true.mpr ⟨_, hmem, by rw [hnil]; rfl⟩
+  simp [hany] at hnn
+
 end Goframe.C14
